@@ -17,7 +17,7 @@ def run(ctx):
     quick = ctx.tier == "quick"
     # 1. design-level model check
     r = ctx.tlc_ok("Tracker", "Tracker_mc.cfg" if quick else "Tracker_mc_thorough.cfg",
-                   timeout=1500, coverage=not quick)
+                   timeout=3000, coverage=not quick)
     if not quick:
         vacuous = vacuity(r.out_path)
         if vacuous:
